@@ -549,6 +549,74 @@ def r10(p, rep):
     return n
 
 
+def r11(p, rep):
+    rep.rule("C01.R11", "in the per-backend operation tables an entry named N is built by the adapter function N (and no declared entry is dead)", "T-TAB (key vs builder) + dead-operand check on dict unions", floor=20)
+    fam = family_lists(p)
+    _FAM.clear()
+    _FAM.update(fam)
+    universe = set(fam["all"]) | {"id", "dot", "get_at"}
+    for fw, m in backends.impl_modules(p).items():
+        for f in p.funcs.values():
+            if f.module is not m:
+                continue
+            for d in walk_no_nested(f.node):
+                # (a) "name": adapter.<module>.<builder>(...)
+                if isinstance(d, ast.Dict):
+                    for k, v in zip(d.keys, d.values):
+                        if isinstance(k, ast.Constant) and isinstance(k.value, str) and isinstance(v, ast.Call):
+                            ch = attr_chain(v.func)
+                            if ch and ch[0] == "adapter" and ch[-1] in universe and k.value in universe:
+                                ok = ch[-1] == k.value
+                                rep.add("C01.R11", f"{f.qualname}:entry:{k.value}", f"{m.rel}:{v.lineno}", ok, f"{k.value!r} is built by {'.'.join(ch)}" if ok else f"the {fw} table entry {k.value!r} is built by `{'.'.join(ch)}`: calling einx.{k.value} on this backend computes {ch[-1]}")
+                # (b) a | b | c : an operand whose keys are all overridden by a later operand is dead
+                if isinstance(d, ast.BinOp) and isinstance(d.op, ast.BitOr) and not (isinstance(getattr(d, "_parent", None), ast.BinOp) and isinstance(getattr(d, "_parent").op, ast.BitOr)):
+                    ops = []
+                    x = d
+                    while isinstance(x, ast.BinOp) and isinstance(x.op, ast.BitOr):
+                        ops.insert(0, x.right)
+                        x = x.left
+                    ops.insert(0, x)
+                    keysets = [_dict_keys(p, f, o) for o in ops]
+                    if any(k is None for k in keysets) or len(ops) < 2:
+                        continue
+                    for i, ks in enumerate(keysets):
+                        later = set().union(*keysets[i + 1 :]) if i + 1 < len(keysets) else set()
+                        dead = bool(ks) and ks <= later
+                        rep.add("C01.R11", f"{f.qualname}:union:operand{i}:{','.join(sorted(ks))[:40]}", f"{m.rel}:{ops[i].lineno}", not dead, f"operand {i} of the table union contributes {len(ks - later)} of its {len(ks)} entries" if not dead else f"every entry of `{norm(ops[i])[:60]}` ({sorted(ks)}) is overridden by a later operand of the `|` union: the declaration has no effect (e.g. operations declared unsupported are silently replaced by the generic lowering and no longer raise OperationNotSupportedError)")
+
+
+_FAM = {}
+
+
+def _dict_keys(p, f, e, depth=0):
+    """constant key set of a dict expression (literal, comprehension over a literal op list, local name), else None"""
+    if depth > 3:
+        return None
+    if isinstance(e, ast.Dict):
+        if all(isinstance(k, ast.Constant) for k in e.keys):
+            return {k.value for k in e.keys}
+        return None
+    if isinstance(e, ast.DictComp) and len(e.generators) == 1 and isinstance(e.key, ast.Name) and isinstance(e.generators[0].target, ast.Name) and e.key.id == e.generators[0].target.id and not e.generators[0].ifs:
+        it = e.generators[0].iter
+        ch = attr_chain(it)
+        if ch and len(ch) >= 2 and ch[-2] == "ops" and ch[-1] in _FAM:
+            return set(_FAM[ch[-1]])  # adapter.ops.<family>
+        try:
+            vals = LiteralEvaluator(p, f.module).eval(it)
+            return set(vals)
+        except Exception:
+            return None
+    if isinstance(e, ast.Name):
+        ds = [a.value for a in walk_no_nested(f.node) if isinstance(a, ast.Assign) and len(a.targets) == 1 and isinstance(a.targets[0], ast.Name) and a.targets[0].id == e.id]
+        if len(ds) == 1:
+            return _dict_keys(p, f, ds[0], depth + 1)
+        return None
+    if isinstance(e, ast.BinOp) and isinstance(e.op, ast.BitOr):
+        a, b = _dict_keys(p, f, e.left, depth + 1), _dict_keys(p, f, e.right, depth + 1)
+        return None if a is None or b is None else a | b
+    return None
+
+
 def run(p, rep, tier):
     r1(p, rep)
     r2(p, rep)
@@ -559,6 +627,10 @@ def run(p, rep, tier):
     r8(p, rep)
     r9(p, rep)
     r10(p, rep)
+    r11(p, rep)
+    from . import c14 as _c14
+
+    _c14.r7(p, rep)  # table entries built in a loop must each keep their own primitive
     from . import c11 as _c11
 
     _c11.r8(p, rep)  # a backend whose factory module deviates from its siblings behaves differently for this property
